@@ -86,7 +86,7 @@ func ruleC08_6(c *Ctx) {
 			continue
 		}
 		n++
-		got := resolve(args[j], s.rec)
+		got := s.up(args[j], s.rec)
 		c.check(got == ssa.Value(own), R, fn, "option "+cp.Name()+" ("+typeStr(cp.Type())+") is handed down", s.rec.Pos(), "argument is the parameter "+own.Name(),
 			fmt.Sprintf("the recursive call passes %s for %s although VerifySublayouts received %s: the sublayout is verified with other options than its parent", short(org(args[j])), cp.Name(), own.Name()))
 	}
